@@ -17,7 +17,7 @@ from verif.contracts.common import (Obligation, Result, Sym, sym_call, Interp, R
 from verif.contracts import physsys
 
 LEVEL = 'other'
-EXPECTED_MIN = {'quick': 4, 'thorough': 4}
+EXPECTED_MIN = {'quick': 10, 'thorough': 12}
 EXPLANATION = ('PROVED premises: the generalized one-step map is first-order consistent -- (q\' - q)/dt = qd\' exactly on hinge/slide dofs, pos\' = pos + dt v\' and d rot\'/d dt at dt = 0 equals '
                '(1/2) rot (x) (0, w) for free joints (jax.jvp of the real function in dt, evaluated at 0), qd\' = qd + dt qdd with (M + dt D) qdd = qf; with damping 0 '
                'the implicit term vanishes, so the scheme is semi-implicit Euler for qdd = M^-1 (passive - bias).  That M, bias are the model\'s Lagrangian terms is C02.  The drift '
@@ -164,9 +164,12 @@ def bounded(tier):
     n = 3 if tier == 'quick' else 40
     evals = 0
     ratios = []
-    for k in range(n):
-      free = (k % 2 == 0)
-      xml, meta = modelgen.generate(rng, modelgen.Spec(n_links=(2, 3) if free else (1, 3), damping_p=0.0, limits_p=0.0, actuators=(0, 0), collide=False, all_free_roots=free,
+    for k in range(-len(FIXED_MODELS), n):
+      free = (k % 2 == 0) or k < 0
+      if k < 0:
+        xml, meta = FIXED_MODELS[k + len(FIXED_MODELS)], {}
+      else:
+       xml, meta = modelgen.generate(rng, modelgen.Spec(n_links=(2, 3) if free else (1, 3), damping_p=0.0, limits_p=0.0, actuators=(0, 0), collide=False, all_free_roots=free,
                                                      free_root_p=0.0 if not free else 1.0, stiffness_p=0.3, armature_p=0.2, max_stack=1 if free else 3, origin_anchor=free))
       sys0 = mjcf.loads(xml).replace(matrix_inv_iterations=0)
       q, qd = modelgen.rand_state(rng, sys0, 1.0, 1.0)
@@ -222,8 +225,30 @@ def bounded(tier):
                     'the drift ratio between successive refinements lies in [1.4, 2.9] whenever the drift is measurable, and the drift at dt/4 is small', run, backend='bounded', kind='bounded', budget=2400)
 
 
+FIXED_MODELS = [
+    # free-floating rotated box carrying a spring-loaded slider on a rotated child body, and a hinge: exercises prismatic axes in rotated frames under a free root
+    '<mujoco><compiler angle="radian"/><option timestep="0.001" gravity="0 0 -9.81"/><worldbody><body name="a" pos="0 0 1" quat="0.8 0.2 -0.4 0.4"><freejoint/>'
+    '<geom type="box" size="0.2 0.1 0.05" density="800" contype="0" conaffinity="0"/>'
+    '<body name="b" pos="0.2 0.1 0" quat="0.5 0.5 -0.5 0.5"><joint type="slide" axis="0.6 0 0.8" stiffness="20"/><geom size="0.07" density="1500" pos="0.05 0 0.1" contype="0" conaffinity="0"/>'
+    '<body name="c" pos="0 0.1 0.1" quat="0.9238795 0 0.3826834 0"><joint type="hinge" axis="0 0.8 0.6"/><geom type="capsule" size="0.03 0.1" pos="0.1 0 0" contype="0" conaffinity="0"/></body></body>'
+    '</body></worldbody></mujoco>',
+]
+
+
+def premises(tier):
+  """premise (b) of the drift theorem -- the integrated vector field is the model's Lagrangian dynamics -- is the conjunction of C02's stage contracts; they are
+  obligations of this check as well, so that a change breaking them is reported against C12 too"""
+  from verif.contracts import C02
+  Q = ('quick', 'thorough')
+  obs = [C02.cdof('s', 'free', Q), C02.cdof('h', 'free', Q), C02.cdof('sh', 'root', Q), C02.crb_form('chain3[1,2,1]', Q), C02.rne_form('chain3[1,2,1]', Q),
+         C02.crb_form('two-trees[f,1;2]', ('thorough',)), C02.rne_form('two-trees[f,1;2]', ('thorough',)), C02.passive_forward()]
+  for o in obs:
+    o.id = o.id.replace('C02/', 'C12/premise/')
+  return obs
+
+
 def obligations(tier):
-  obs = [consistency_axis(), consistency_free(), undamped_explicit(), bounded(tier)]
+  obs = [consistency_axis(), consistency_free(), undamped_explicit(), bounded(tier)] + premises(tier)
 
   def canary(A):
     # an explicit (not semi-implicit) position update q' = q + dt*qd_old is ALSO first-order consistent -- but claiming q' = q + dt*qd (old velocity) for the real code must be refuted
